@@ -34,6 +34,7 @@ func c18(c *Ctx) {
 	r.Explain = "C18 (importing a filesystem tree): decides on the recursive importer (the exported builder that calls os.ReadDir) that (R18.1) the file mode it dispatches on comes from os.Lstat and os.Stat is never called, so symbolic links are seen as links; (R18.2) the dispatch has a directory, a symlink and a regular-file arm and a remaining arm that returns an error with no link; the symlink arm hands os.Readlink's text to the symlink builder and opens nothing, the regular arm hands the opened file to the file builder; (R18.3) in the directory arm every entry returned by os.ReadDir, on every path that continues the loop, is imported recursively under join(root, e.Name()), wrapped into a link named e.Name() whose target and size are that recursive result, and appended — no filter, no skip; (R18.4) the collected links go to the directory builder that chooses between plain and sharded form. Not decided: equality of a read-back with the filesystem."
 	r.Rule("R18.1", "the FileMode driving the dispatch is Mode() of the FileInfo returned by os.Lstat on the root parameter; os.Stat is not called anywhere in the importer")
 	r.Rule("R18.6", "the builders the arms hand to can store what they build: codec agreement at every store site (same check as R16.7) — an empty file stored under the dag-pb prototype makes the import of a valid tree fail")
+	r.Rule("R18.7", "the link constructor stores the name it is given: the string parameter of the directory-entry constructor reaches AssignString unmodified (no sanitising, case folding or trimming inside the constructor — the importer hands it e.Name())")
 	r.Rule("R18.2", "the dispatch tests IsDir(), Type()==ModeSymlink and IsRegular(); the path where all are false returns (nil link, non-nil error); symlink arm: os.Readlink(root) → symlink builder, no os.Open/ReadFile; regular arm: os.Open(root) → file builder")
 	r.Rule("R18.3", "directory arm: range over os.ReadDir(root)'s entries; every cycle of the loop passes the recursive import of path.Join(root, e.Name()), the link constructor named e.Name() with that result's link and size, and the append to the list that is built")
 	r.Rule("R18.5", "the importer and the builders it calls keep no state between imports: no package-level variable of the builder packages is written outside package initialisation (every import writes all of its blocks to the store it was given)")
@@ -256,6 +257,7 @@ func c18(c *Ctx) {
 
 	c.checkNoBuilderGlobals("R18.5")
 	c.checkStoreCodec("R18.6")
+	c.checkEntryNameVerbatim()
 	// ---- R18.3
 	if b := arms["dir"]; b != nil {
 		done := false
@@ -613,4 +615,97 @@ func (c *Ctx) textStoredVerbatim(S *ssa.Function, idx int) string {
 		return "the symlink builder " + core.FuncName(S) + " does not store its text parameter verbatim into the Data member"
 	}
 	return ""
+}
+
+// checkEntryNameVerbatim implements R18.7.
+func (c *Ctx) checkEntryNameVerbatim() {
+	r := c.R
+	n := 0
+	for _, fn := range c.G.Funcs() {
+		if !isEntryCtor(fn) || len(fn.Blocks) == 0 {
+			continue
+		}
+		var nameP *ssa.Parameter
+		for _, p := range fn.Params {
+			if isBasic(p.Type(), types.String) {
+				nameP = p
+				break
+			}
+		}
+		if nameP == nil {
+			continue
+		}
+		n++
+		key := core.FuncName(fn) + "/name-verbatim"
+		verbatim, transformed := 0, ""
+		var derives func(v ssa.Value, d int) (fromParam bool, viaCall bool)
+		derives = func(v ssa.Value, d int) (bool, bool) {
+			if d > 6 || v == nil {
+				return false, false
+			}
+			switch x := v.(type) {
+			case *ssa.Parameter:
+				return x == nameP, false
+			case *ssa.Convert:
+				return derives(x.X, d+1)
+			case *ssa.Phi:
+				fp, vc := false, false
+				for _, e := range x.Edges {
+					a, b := derives(e, d+1)
+					fp = fp || a
+					vc = vc || b
+				}
+				return fp, vc
+			case *ssa.Call:
+				for _, a := range x.Call.Args {
+					if fp, _ := derives(a, d+1); fp {
+						return true, true
+					}
+				}
+			case *ssa.UnOp:
+				// a local cell the parameter was copied / reassigned into
+				if al, ok := x.X.(*ssa.Alloc); ok {
+					fp, vc := false, false
+					for _, ref := range *al.Referrers() {
+						if st, ok := ref.(*ssa.Store); ok && st.Addr == ssa.Value(al) {
+							a, b := derives(st.Val, d+1)
+							fp = fp || a
+							vc = vc || b
+						}
+					}
+					return fp, vc
+				}
+			}
+			return false, false
+		}
+		for _, ci := range core.CallsIn(fn) {
+			call, ok := ci.(*ssa.Call)
+			if !ok {
+				continue
+			}
+			name, _ := methodCall(call)
+			if name != "AssignString" || len(call.Call.Args) == 0 {
+				continue
+			}
+			arg := call.Call.Args[len(call.Call.Args)-1]
+			fp, vc := derives(arg, 0)
+			if !fp {
+				continue
+			}
+			if vc {
+				transformed = c.P.Pos(call.Pos())
+			} else {
+				verbatim++
+			}
+		}
+		switch {
+		case transformed != "":
+			r.Violate("R18.7", key, c.P.Pos(fn.Pos()), "the name is passed through a function before it is stored (at "+transformed+"): entries are listed under names that differ from the on-disk ones")
+		case verbatim == 0:
+			r.Violate("R18.7", key, c.P.Pos(fn.Pos()), "the name parameter never reaches AssignString")
+		default:
+			r.OK("R18.7", key, c.P.Pos(fn.Pos()), "the name parameter is stored as given")
+		}
+	}
+	r.Floor("R18.7", n, 1)
 }
